@@ -383,10 +383,53 @@ def r05_5b(rep, M, rid):
         raise AnalysisError(f"only {n} spglib dataset fields found flowing into _spglib_description_to_system")
 
 
-def r05_6(rep, M, rid):
-    """wrapping may snap coordinates to the cell faces only within numerical noise"""
+def r05_6(rep, M, rid, reduction=False):
+    """wrapping may snap coordinates to the cell faces only within numerical noise.
+    reduction=True: the borrowing property also states that the values handed out lie in [0, 1) (C08's parameters); for the others a
+    coordinate outside [0, 1) is the same atom modulo the lattice"""
     fq = "matid.geometry.geometry.get_wrapped_positions"
     fn = M.func(fq)
+    # what is returned has been reduced modulo 1 on every path (values in [0, 1)): `x %= 1`, `x = x % 1`, `x = np.mod(x, 1)` / np.remainder,
+    # `x -= np.floor(x)`; a call whose result is dropped reduces nothing
+    from ..cfg import CFG
+    cfg = CFG(fn)
+    rets = [(n, d["ast"]) for n, d in cfg.g.nodes(data=True) if isinstance(d["ast"], ast.Return) and d["ast"].value is not None]
+    if not rets or not all(isinstance(r.value, ast.Name) for _, r in rets):
+        raise AnalysisError("get_wrapped_positions: returned array not recognised")
+
+    def is_one(e):
+        return isinstance(e, ast.Constant) and e.value in (1, 1.0)
+
+    def reduces(st, name):
+        if isinstance(st, ast.AugAssign) and isinstance(st.target, ast.Name) and st.target.id == name:
+            if isinstance(st.op, ast.Mod) and is_one(st.value):
+                return True
+            if isinstance(st.op, ast.Sub) and isinstance(st.value, ast.Call) and norm(st.value.func).endswith("floor") and norm(st.value.args[0]) == name:
+                return True
+        if isinstance(st, ast.Assign) and len(st.targets) == 1 and norm(st.targets[0]) in (name, name + "[:]", name + "[...]"):
+            v = st.value
+            if isinstance(v, ast.BinOp) and isinstance(v.op, ast.Mod) and is_one(v.right):
+                return True
+            if isinstance(v, ast.Call) and norm(v.func).split(".")[-1] in ("mod", "remainder", "fmod") and len(v.args) >= 2 and is_one(v.args[1]):
+                return norm(v.func).split(".")[-1] != "fmod" or None     # fmod keeps the sign of the dividend: not a reduction into [0, 1)
+            if isinstance(v, ast.BinOp) and isinstance(v.op, ast.Sub) and isinstance(v.right, ast.Call) and norm(v.right.func).endswith("floor"):
+                return True
+        return False
+    for n, r in (rets if reduction else []):
+        name = r.value.id
+        red = [m for m, d in cfg.g.nodes(data=True) if d["ast"] is not None and reduces(d["ast"], name)]
+        dropped = [d["ast"] for m, d in cfg.g.nodes(data=True) if isinstance(d["ast"], ast.Expr) and isinstance(d["ast"].value, ast.Call)
+                   and norm(d["ast"].value.func).split(".")[-1] in ("mod", "remainder", "fmod", "floor", "round", "around", "rint")
+                   and not any(k.arg == "out" for k in d["ast"].value.keywords)]
+        if red and cfg.all_paths_pass(cfg.entry, n, red):
+            rep.ok(rid, f"get_wrapped_positions: `{name}` is reduced modulo 1 on every path before it is returned")
+        elif dropped:
+            rep.violation(rid, "get_wrapped_positions: reduction into [0, 1)", f"`{norm(dropped[0])}` computes the reduced coordinates and drops them (no assignment, "
+                          f"no out=): `{name}` is returned as it came in, so coordinates outside [0, 1) - and with them negative Wyckoff parameters - are handed out",
+                          M.where(fq, dropped[0]))
+        else:
+            rep.violation(rid, "get_wrapped_positions: reduction into [0, 1)", f"`{name}` is not reduced modulo 1 on every path before it is returned "
+                          "(a sign-keeping np.fmod does not count): values outside [0, 1) are handed out", M.where(fq, r))
     dfl = fn.args.defaults
     prec = None
     for a, dv in zip(fn.args.args[len(fn.args.args) - len(dfl):], dfl):
